@@ -368,7 +368,13 @@ func CheckSendJoinResponse(
 
 	// Then we add the current state events too, since our newly formed
 	// membership event will likely refer to these as auth events too.
+	// (An event may be listed in both places. A copy whose content hash did not
+	// match has been redacted on parsing; as in CheckStateResponse the intact
+	// copy stands for the event.)
 	for i, event := range stateEvents {
+		if prev, ok := eventsByID[event.EventID()]; ok && event.Redacted() && !prev.Redacted() {
+			continue
+		}
 		eventsByID[event.EventID()] = stateEvents[i]
 	}
 
